@@ -4,6 +4,7 @@ import XalanModel.C03.LoopsProofs
 import XalanModel.C03.Structure
 import XalanModel.C03.GuardProofs
 import XalanModel.C03.UriProofs
+import XalanModel.C03.Depth
 import XalanModel.Generated.C03_Messages
 /-!
 # C03 — no input crashes, hangs or corrupts memory; every failure is a reported error
@@ -659,6 +660,78 @@ example : resolveStrings true true false [46, 46, 47, 103] [104, 116, 116, 112, 
 theorem uri_unguarded_decrement_counterexample :
     dotLoop false (dotFuel 4) [46, 46, 47, 120] 0 = .memErr ∧
     resolveStrings false true false [46, 46, 47, 120] [102, 105, 108, 101, 58, 109, 97, 105, 110, 46, 120, 115, 108] = .memErr := by
+  decide +kernel
+
+/-! ## (g) the template depth guard -/
+
+/-- **Every recursion without an end is reported.**  A running stylesheet pushes an entry onto the stack of current templates for every
+    template it instantiates and every `xsl:for-each` it enters (null for `xsl:for-each` and for a named template called inside one) and
+    pops it when that is done; the stack starts with its one bottom entry.  With the test in `pushCurrentTemplate` as the regenerated
+    flag describes it (it counts every push), ANY sequence of pushes and pops — whatever the mixture of null and non-null entries —
+    under which the stack would come to hold more than `eMaximumTemplateDepth` entries is stopped by the guard ("Infinite recursion"). -/
+theorem template_depth_guard_reports_every_unbounded_recursion (evs : List DepthEv)
+    (h : depthExceeds maximumTemplateDepth 1 evs = true) :
+    depthRun templateDepthGuardCountsNull templateDepthGuardGe maximumTemplateDepth 1 evs = none := by
+  have hg : templateDepthGuardCountsNull = true := rfl
+  rw [hg, depthRun_counting_operator_irrelevant _ _ _ 1 (by decide)]
+  exact (depthRun_counting_none_iff maximumTemplateDepth evs 1 (by decide)).mpr h
+
+/-- … after at most `eMaximumTemplateDepth` pushes when nothing returns in between -/
+theorem template_depth_guard_at_most_limit_pushes (flags : List Bool) (h : maximumTemplateDepth ≤ flags.length) :
+    depthRun templateDepthGuardCountsNull templateDepthGuardGe maximumTemplateDepth 1 (flags.map DepthEv.push) = none := by
+  have hg : templateDepthGuardCountsNull = true := rfl
+  rw [hg, depthRun_counting_operator_irrelevant _ _ _ 1 (by decide)]
+  exact depthRun_counting_pushes maximumTemplateDepth flags 1 (by decide) (by omega)
+
+/-- no false alarm, and the stack never holds more than the limit: a run that stays within the limit goes through -/
+theorem template_depth_guard_bounded_no_false_alarm (evs : List DepthEv)
+    (h : depthExceeds maximumTemplateDepth 1 evs = false) :
+    ∃ n, depthRun templateDepthGuardCountsNull templateDepthGuardGe maximumTemplateDepth 1 evs = some n ∧ n ≤ maximumTemplateDepth := by
+  have hg : templateDepthGuardCountsNull = true := rfl
+  rw [hg, depthRun_counting_operator_irrelevant _ _ _ 1 (by decide)]
+  cases hr : depthRun true true maximumTemplateDepth 1 evs with
+  | none =>
+    have := (depthRun_counting_none_iff maximumTemplateDepth evs 1 (by decide)).mp hr
+    rw [h] at this; cases this
+  | some n => exact ⟨n, rfl, depthRun_counting_bounded maximumTemplateDepth evs 1 n (by decide) hr⟩
+
+example : depthExceeds 3 1 [.push true, .push false, .pop, .push true, .push true] = true := by decide
+example : depthRun true true 3 1 [.push true, .push false, .pop, .push true, .push true] = none := by decide
+example : depthRun true true 3 1 [.push true, .push false, .pop, .pop, .push true] = some 2 := by decide
+
+/-- the test written `theTemplate != 0 && size >= limit` is skipped for null entries: `xsl:for-each` around `xsl:call-template` pushes
+    nothing but null entries, and any number of them goes through — the recursion ends only when memory does -/
+theorem template_depth_guard_null_skipping_counterexample (ge : Bool) (n : Nat) :
+    depthRun false ge maximumTemplateDepth 1 (List.replicate n (DepthEv.push true)) = some (1 + n) :=
+  depthRun_skipping_null ge maximumTemplateDepth n 1
+
+/-- `size == limit` together with exempt pushes: a stack of `limit` entries on which an exempt (null) push lands steps over the limit, and
+    from there on NO push is refused, counted or not — the other parity (a counted push lands on `limit`) is still refused -/
+theorem template_depth_guard_equality_counterexample (flags : List Bool) :
+    depthRun false false maximumTemplateDepth maximumTemplateDepth (DepthEv.push true :: flags.map DepthEv.push)
+      = some (maximumTemplateDepth + 1 + flags.length) ∧
+    depthRun false false maximumTemplateDepth maximumTemplateDepth [DepthEv.push false] = none := by
+  constructor
+  · have := depthRun_eq_stepped_over false maximumTemplateDepth flags (maximumTemplateDepth + 1) (by omega)
+    simpa [depthRun, depthStep] using this
+  · simp [depthRun, depthStep]
+
+/-! ## (h) the growing buffer of the local-code-page transcoding -/
+
+/-- **The retry loop of `doXercesTranscode` (the form that reports failure; it fills `XalanTransformer`'s error message) reaches a target that is
+    large enough before it gives up**, for every source of n ≥ 1 UTF-16 units whose transcoded form needs at most 3 bytes per unit (UTF-8: 3 for a
+    BMP character, 4 for a surrogate PAIR; EUC, Shift-JIS, Big5, ISO-8859-x need less) — with the regenerated give-up factor and step. -/
+theorem local_transcode_growth_covers_three_bytes_per_unit (n need : Nat) (hn : 1 ≤ n) (h : need ≤ 3 * n) :
+    growLoop transcodeGrowthFactor transcodeGrowthStep n need (transcodeGrowthFactor * n) (n + 1) = true := by
+  have hf : 4 ≤ transcodeGrowthFactor := by decide
+  have hs : 1 ≤ transcodeGrowthStep := by decide
+  have h4 : n * 4 ≤ n * transcodeGrowthFactor := Nat.mul_le_mul_left n hf
+  have h5 : transcodeGrowthFactor * n = n * transcodeGrowthFactor := Nat.mul_comm _ _
+  exact growLoop_reaches _ _ n need hs (by omega) _ _ (by omega)
+
+/-- giving up at twice the source length: 1000 CJK characters (3000 bytes) are never reached -/
+theorem local_transcode_growth_factor_two_counterexample :
+    growLoop 2 10 1000 3000 2000 1001 = false := by
   decide +kernel
 
 end XalanModel.Props.C03
